@@ -818,3 +818,54 @@ Check forward_difference_truncation : forall (g g1 g2 : R -> R) (d B : R),
   (Rabs ((g d - g 0) / d - g1 0) <= Rabs d / 2 * B)%R.
 Print Assumptions forward_difference_truncation.
 (* non-vacuity: jacobian_truncation_nonvacuous exhibits g, g', g'' = 4 on [0, 1/4] *)
+
+(* the complex Jacobian (Matrix::<Cmplx>::jacobian_cmplx at Newton2Inst.NCR = NCplx SolveC.SAR): the step is the REAL
+   number delta, embedded as (delta, 0); gr, gi are the real and imaginary parts of f_i(x + t e_j) for real t *)
+From OV Require Model.Complex Proofs.SolveR Proofs.SolveC Proofs.Newton2Inst Proofs.Newton2JacC.
+Theorem jacobian_truncation_C : forall (F : list SolveC.ACR -> res (list SolveC.ACR)) (x : list SolveC.ACR) (dl : R)
+    (J : matrix SolveC.ACR) evs,
+  jacobian Newton2Inst.NCR F x (emb Newton2Inst.NCR dl) = Ok (J, evs) ->
+  forall (i j : nat) (gr gr1 gr2 gi gi1 gi2 : R -> R) (Br Bi : R),
+  i < rows J -> j < length x ->
+  (forall t, (Rmin 0 dl <= t <= Rmax 0 dl)%R ->
+     exists v, F (perturbed Newton2Inst.NCR x (Complex.mkC (A:=SolveR.AR) t 0%R) j) = Ok v /\
+               Complex.re (nth i v (zero : SolveC.ACR)) = gr t /\ Complex.im (nth i v (zero : SolveC.ACR)) = gi t) ->
+  (forall t, (Rmin 0 dl <= t <= Rmax 0 dl)%R -> derivable_pt_lim gr t (gr1 t)) ->
+  (forall t, (Rmin 0 dl <= t <= Rmax 0 dl)%R -> derivable_pt_lim gr1 t (gr2 t)) ->
+  (forall t, (Rmin 0 dl <= t <= Rmax 0 dl)%R -> (Rabs (gr2 t) <= Br)%R) ->
+  (forall t, (Rmin 0 dl <= t <= Rmax 0 dl)%R -> derivable_pt_lim gi t (gi1 t)) ->
+  (forall t, (Rmin 0 dl <= t <= Rmax 0 dl)%R -> derivable_pt_lim gi1 t (gi2 t)) ->
+  (forall t, (Rmin 0 dl <= t <= Rmax 0 dl)%R -> (Rabs (gi2 t) <= Bi)%R) ->
+  exists q : SolveC.ACR, mget J i j = Ok q /\
+    (Rabs (Complex.re q - gr1 0) <= Rabs dl / 2 * Br)%R /\ (Rabs (Complex.im q - gi1 0) <= Rabs dl / 2 * Bi)%R.
+Proof. exact Newton2JacC.jacobian_truncation_C_lemma. Qed.
+Check jacobian_truncation_C : forall (F : list SolveC.ACR -> res (list SolveC.ACR)) (x : list SolveC.ACR) (dl : R)
+    (J : matrix SolveC.ACR) evs,
+  jacobian Newton2Inst.NCR F x (emb Newton2Inst.NCR dl) = Ok (J, evs) ->
+  forall (i j : nat) (gr gr1 gr2 gi gi1 gi2 : R -> R) (Br Bi : R),
+  i < rows J -> j < length x ->
+  (forall t, (Rmin 0 dl <= t <= Rmax 0 dl)%R ->
+     exists v, F (perturbed Newton2Inst.NCR x (Complex.mkC (A:=SolveR.AR) t 0%R) j) = Ok v /\
+               Complex.re (nth i v (zero : SolveC.ACR)) = gr t /\ Complex.im (nth i v (zero : SolveC.ACR)) = gi t) ->
+  (forall t, (Rmin 0 dl <= t <= Rmax 0 dl)%R -> derivable_pt_lim gr t (gr1 t)) ->
+  (forall t, (Rmin 0 dl <= t <= Rmax 0 dl)%R -> derivable_pt_lim gr1 t (gr2 t)) ->
+  (forall t, (Rmin 0 dl <= t <= Rmax 0 dl)%R -> (Rabs (gr2 t) <= Br)%R) ->
+  (forall t, (Rmin 0 dl <= t <= Rmax 0 dl)%R -> derivable_pt_lim gi t (gi1 t)) ->
+  (forall t, (Rmin 0 dl <= t <= Rmax 0 dl)%R -> derivable_pt_lim gi1 t (gi2 t)) ->
+  (forall t, (Rmin 0 dl <= t <= Rmax 0 dl)%R -> (Rabs (gi2 t) <= Bi)%R) ->
+  exists q : SolveC.ACR, mget J i j = Ok q /\
+    (Rabs (Complex.re q - gr1 0) <= Rabs dl / 2 * Br)%R /\ (Rabs (Complex.im q - gi1 0) <= Rabs dl / 2 * Bi)%R.
+Print Assumptions jacobian_truncation_C.
+
+(* F(z) = (z^2) at z = 1 + i, delta = 1/4: re f(1 + t + i) = (1 + t)^2 - 1, im f(1 + t + i) = 2 (1 + t) *)
+Example jacobian_truncation_C_nonvacuous :
+  exists J evs, jacobian Newton2Inst.NCR Newton2JacC.Fwc [Complex.mkC (A:=SolveR.AR) 1%R 1%R] (emb Newton2Inst.NCR (1 / 4)%R) = Ok (J, evs) /\
+    0 < rows J /\
+    (forall t, (Rmin 0 (1 / 4) <= t <= Rmax 0 (1 / 4))%R ->
+       exists v, Newton2JacC.Fwc (perturbed Newton2Inst.NCR [Complex.mkC (A:=SolveR.AR) 1%R 1%R] (Complex.mkC (A:=SolveR.AR) t 0%R) 0) = Ok v /\
+                 Complex.re (nth 0 v (zero : SolveC.ACR)) = ((1 + t) * (1 + t) - 1)%R /\
+                 Complex.im (nth 0 v (zero : SolveC.ACR)) = (2 * (1 + t))%R) /\
+    (forall t, derivable_pt_lim (fun t => (1 + t) * (1 + t) - 1)%R t (2 * (1 + t))%R) /\
+    (forall t, derivable_pt_lim (fun t => 2 * (1 + t))%R t 2%R) /\ (Rabs 2 <= 2)%R /\
+    (forall t, derivable_pt_lim (fun _ : R => 2%R) t 0%R) /\ (Rabs 0 <= 0)%R.
+Proof. exact Newton2JacC.jacobian_truncation_C_witness. Qed.
